@@ -137,7 +137,13 @@ def h_deep_lines(cfg: int, n: int, c0: int, c1: int, c2: int) -> bool:
     if str(tb) != ''.join(x + '\n' for x in ['H', ' h2'] + once):   # header never indented
         return False
     tb.indent()                                                      # same indentizer again
-    return tb.lines == twice
+    if tb.lines != twice:
+        return False
+    hdr = TextBlock(['H', ' h2'])
+    owner = TextBlock(list(lines), header=hdr)
+    hdr.indent(ind)                                                  # indenting the block that served as header
+    hdr.append('later')
+    return str(owner) == ''.join(x + '\n' for x in ['H', ' h2'] + list(lines)) and owner.lines == list(lines)
 
 
 def h_sym_config(width: int, mode: int, g: str, c0: int, c1: int) -> bool:
